@@ -259,10 +259,7 @@ def m_stmt(s, ind=0):
             out += _m_suite('else', s[3], ind)
         return out
     if k == 'match':
-        out = [p + 'match %s' % m_expr(s[1])]
-        for pat, body in s[2]:
-            out += _m_suite('%s =>' % ('_' if pat == '_' else m_expr(pat)), body, ind + 1)
-        return out
+        return [p + 'match %s' % m_expr(s[1])] + m_arms(s[2], ind)
     if k == 'while':
         return _m_suite('while %s do' % m_expr(s[1]), s[2], ind)
     if k == 'for':
@@ -279,8 +276,12 @@ def m_stmt(s, ind=0):
         inner = m_stmt(s[1], ind)
         assert len(inner) == 1, inner
         out = [inner[0] + ' handle']
-        for v, cls, body in s[2]:
-            out += _m_suite('%s: %s =>' % (v, cls), body, ind + 1)
+        for arm in s[2]:
+            v, cls, body = arm[0], arm[1], arm[2]
+            if len(arm) > 3 and arm[3] == 'line' and len(body) == 1 and len(m_stmt(body[0], 0)) == 1:
+                out.append(IND * (ind + 1) + '%s: %s => %s' % (v, cls, m_stmt(body[0], 0)[0]))
+            else:
+                out += _m_suite('%s: %s =>' % (v, cls), body, ind + 1)
         return out
     if k == 'defif':
         _, name, ty, c, th, el = s
@@ -288,11 +289,23 @@ def m_stmt(s, ind=0):
         return _m_suite(head, th, ind) + _m_suite('else', el, ind)
     if k == 'defmatch':
         _, name, ty, ex, arms = s
-        out = [p + 'def %s%s := match %s' % (name, (': ' + ty) if ty else '', m_expr(ex))]
-        for pat, body in arms:
-            out += _m_suite('%s =>' % ('_' if pat == '_' else m_expr(pat)), body, ind + 1)
-        return out
+        return [p + 'def %s%s := match %s' % (name, (': ' + ty) if ty else '', m_expr(ex))] + m_arms(arms, ind)
     raise ValueError('m_stmt: ' + repr(s))
+
+
+def m_arms(arms, ind):
+    """match arms; an arm (pat, body, 'line') with a one-statement body is written on one line"""
+    out = []
+    for arm in arms:
+        pat, body = arm[0], arm[1]
+        head = '%s =>' % ('_' if pat == '_' else m_expr(pat))
+        if len(arm) > 2 and arm[2] == 'line' and len(body) == 1:
+            inner = m_stmt(body[0], 0)
+            if len(inner) == 1:
+                out.append(IND * (ind + 1) + head + ' ' + inner[0])
+                continue
+        out += _m_suite(head, body, ind + 1)
+    return out
 
 
 def m_params(params):
@@ -418,7 +431,8 @@ def r_stmt(s, ind=0, tail=None):
         # first matching arm, by equality; `_` matches everything
         out = [p + '__m = %s' % r_expr(s[1])]
         first = True
-        for pat, body in s[2]:
+        for arm in s[2]:
+            pat, body = arm[0], arm[1]
             if pat == '_':
                 out.append(p + ('if True:' if first else 'else:'))
                 out += r_block(body, ind + 1, tail)
@@ -454,7 +468,8 @@ def r_stmt(s, ind=0, tail=None):
         else:
             target = tail
             out += _tailed(r_expr(inner[1]), ind + 1, tail)
-        for v, cls, body in s[2]:
+        for arm in s[2]:
+            v, cls, body = arm[0], arm[1], arm[2]
             out.append(p + 'except %s as %s:' % (cls, v))
             out += r_block(body, ind + 1, target)
         return out
